@@ -8,6 +8,12 @@ import facts
 from runner import Check
 
 PROPS = {
+    "C04": ("rules_c04", "other",
+            "Decided: the Ok/Err(variant)/panic verdict of every public scalar constructor on every cell of a partition of its "
+            "argument space (NaN, ±inf, ±0, cells between the constants the code and docs compare against; ordered ladders for "
+            "mutually compared arguments), by abstract interpretation of the monomorphic MIR, against an oracle transcribed from "
+            "the error-variant docs; accessors return the argument they are named after. Not decided: thresholds moved by an ulp, "
+            "underflow of 0.5*k, regions the docs leave unspecified (listed)."),
     "C05": ("rules_c05", "other",
             "Decided (necessary structural condition only): the crate-local sampling call graph is acyclic; every natural loop on a "
             "sampling path has a non-panic exit whose condition depends, by def-use inside the loop, on a fresh RNG draw made in the "
